@@ -132,12 +132,24 @@ def _ll_cross(c, w=0.01):
     return t
 
 
+def _ll_corr(c, s=0.25, rho=0.98):
+    """wide, strongly correlated Gaussian (rho = 0.98) in the first two parameters: its bounding
+    ellipsoids are tilted and poke through cube faces although their axis intercepts lie inside"""
+    u = (c[0] - 0.5) / s
+    v = (c[1] - 0.5) / s
+    t = -0.5 * (u * u - 2.0 * rho * u * v + v * v) / (1.0 - rho * rho)
+    for ci in c[2:]:
+        e = (ci - 0.5) / 0.2
+        t = t - 0.5 * e * e
+    return t
+
+
 def _ll_const(c):
     return 0.0 * c[0]
 
 
 LIKES = dict(gauss=_ll_gauss, gwide=_ll_gwide, two=_ll_two, ring=_ll_ring, half=_ll_half, plateau=_ll_plateau,
-             wrap=_ll_wrap, const=_ll_const, funnel=_ll_funnel, nuis=_ll_nuis, cross=_ll_cross)
+             wrap=_ll_wrap, const=_ll_const, funnel=_ll_funnel, nuis=_ll_nuis, cross=_ll_cross, corr=_ll_corr)
 
 BLOB_KINDS = ('none', 'float', 'int', 'two', 'array', 'struct', 'f32')
 
